@@ -200,8 +200,11 @@ func (v *Vue) loadCachedWithFrontMatter(filename string) (map[string]any, []*htm
 
 	v.templateMu.RLock()
 	cached, ok := v.templateCache[filename]
-	if ok && !statFailed && (currentModTime.IsZero() || cached.modTime.Equal(currentModTime)) {
-		// Cache hit and file hasn't changed (or we can't check mtime)
+	if ok && !statFailed && cached.modTime.Equal(currentModTime) {
+		// Cache hit and file hasn't changed. A zero modification time (embedded files, no
+		// filesystem) is a value like any other: an entry cached with a real time is not
+		// served for a file that now reports none (an overlay falling back to its embedded
+		// layer after the upper file was removed).
 		v.templateMu.RUnlock()
 		return cached.frontMatter, cached.dom, nil
 	}
